@@ -84,7 +84,15 @@ class SpecEnum:
         if not (1 <= self.max_bits <= 64):
             return False
         lo, hi = spec_range(self.signed, self.max_bits)
-        return all(lo <= v <= hi for _, v in self.declared)
+        if not all(lo <= v <= hi for _, v in self.declared):
+            return False
+        # "one enumerator per declared name per requested spelling": two declared names that ask for
+        # the same C++ identifier cannot both be generated, so such an enum cannot be accepted
+        if all(c is not None for c in self.cases):
+            names = [n for n, _ in self.enumerators()]
+            if len(set(names)) != len(names):
+                return False
+        return True
 
     def type(self):
         return self.signed, spec_type_bits(self.max_bits)
@@ -135,18 +143,37 @@ def _bad_names():
     return set(constraints.get_reserved_word_list()) | cppgen.platform_macros()
 
 
-def gen_shouty(r, taken, bad):
+def camel_twin(r, t):
+    """A different SHOUTY name with the same kCamelCase spelling as `t` (underscore next to a digit
+    dropped or inserted, underscore doubled, trailing underscore), or None."""
+    opts = []
+    for i, ch in enumerate(t):
+        if ch == "_" and i + 1 < len(t) and t[i + 1].isdigit() and i > 0:
+            opts.append(t[:i] + t[i + 1:])                 # A_1B -> A1B
+        if ch.isdigit() and i > 0 and t[i - 1] != "_":
+            opts.append(t[:i] + "_" + t[i:])               # A1B -> A_1B
+        if ch == "_":
+            opts.append(t[:i] + "_" + t[i:])               # A_B -> A__B
+    opts.append(t + "_")                                   # AB -> AB_
+    if t.endswith("_"):
+        opts.append(t[:-1])
+    opts = [o for o in opts if o != t and _SHOUTY_RE.match(o) and spec_kcamel(o) == spec_kcamel(t)]
+    return r.choice(opts) if opts else None
+
+
+def gen_shouty(r, taken, bad, twin=0.0):
     for _ in range(200):
-        n = r.choice([1, 2, 2, 3, 4, 6])
-        s = r.choice(_LET)
-        for _ in range(n):
-            s += r.choice(_LET + _LET + "0123456789" + "____")
-        if r.random() < 0.15:
-            s += "_"
+        s = None
+        if taken and r.random() < twin:
+            s = camel_twin(r, r.choice(list(taken)))       # near-collision on purpose (the spec decides)
+        if s is None:
+            n = r.choice([1, 2, 2, 3, 4, 6])
+            s = r.choice(_LET)
+            for _ in range(n):
+                s += r.choice(_LET + _LET + "0123456789" + "____")
+            if r.random() < 0.15:
+                s += "_"
         if not _SHOUTY_RE.match(s) or s in taken or s in bad or s.startswith("EMBOSS_RESERVED"):
-            continue
-        # steer around the open finding CAMEL_KEY (narrow predicate: equal kCamelCase spelling)
-        if spec_kcamel(s) in {spec_kcamel(t) for t in taken}:
             continue
         return s
     raise common.InfraError("name generator exhausted")
@@ -230,8 +257,9 @@ def gen_enum(r, idx, bad, module_default, outer_default, invalid=None):
         e.enum_default = r.choice(CASE_TEXTS_OK)
     taken = []
     e.values = []
+    twin = r.choice([0.0, 0.0, 0.0, 0.25])
     for v in vals:
-        nm = gen_shouty(r, taken, bad)
+        nm = gen_shouty(r, taken, bad, twin)
         taken.append(nm)
         at = r.choice(CASE_TEXTS_OK) if r.random() < 0.3 else None
         e.values.append([nm, v, at])
@@ -250,6 +278,15 @@ def gen_enum(r, idx, bad, module_default, outer_default, invalid=None):
         e.values[0][1] = -1
         nm = gen_shouty(r, taken, bad)
         e.values.append([nm, r.choice([1 << 63, (1 << 64) - 1]), None])
+    elif invalid == "camel-collision":
+        # two values whose kCamelCase spellings coincide, with kCamelCase in force for both
+        kcs = [c for c in CASE_TEXTS_OK if "kCamelCase" in c[1]]
+        cands = [(val, camel_twin(r, val[0])) for val in e.values]
+        cands = [(val, tw) for val, tw in cands if tw and tw not in taken and tw not in bad]
+        if cands:           # (else: no twin could be formed; the module stays valid and the spec says so)
+            base, tw = r.choice(cands)
+            base[2] = r.choice(kcs)
+            e.values.insert(r.randrange(len(e.values) + 1), [tw, r.choice(e.values)[1], r.choice(kcs)])
     elif invalid == "bad-case":
         t = r.choice(CASE_TEXTS_BAD)
         if r.random() < 0.5:
@@ -309,7 +346,8 @@ def gen_module(r, bad, invalid=None):
         rust = True
     lines.append("")
     n_enums = r.choice([2, 3, 3, 4])
-    bad_at = r.randrange(n_enums) if invalid in ("maxbits", "value-range", "mixed-sign-64", "bad-case") else -1
+    bad_at = r.randrange(n_enums) if invalid in ("maxbits", "value-range", "mixed-sign-64", "bad-case",
+                                                  "camel-collision") else -1
     enums, holders, wanted = [], [], []
     byte_order = "Little" if "Little" in lines[0] or "Little" in lines[1] else "Big"
     for i in range(n_enums):
@@ -646,6 +684,20 @@ def build_driver(main, ns, enums_q, holders_q):
                        'pv(v%s.UncheckedRead()); std::printf("\\n"); }\n'
                        % (h["n"], h["make"], h["access"], E, cpp_lit(v), h["access"], E, cpp_lit(v), h["id"], i,
                           h["access"]))
+        for i, (kind, v, tok) in enumerate(h["texts"]):
+            out.append("    { std::vector<unsigned char> b(%d, 0); auto v = %s(b.data(), b.size()); "
+                       'bool ok = ::emboss::UpdateFromText(v%s, ::std::string("%s")); '
+                       'std::printf("TX %d %d %%d ", (int)ok); hexdump(b); std::printf(" "); '
+                       'pv(v%s.UncheckedRead()); std::printf("\\n"); }\n'
+                       % (h["n"], h["make"], h["access"], tok, h["id"], i, h["access"]))
+        for i, v in enumerate(h["roundtrips"]):
+            out.append("    { std::vector<unsigned char> b(%d, 0), c(%d, 0); auto v = %s(b.data(), b.size()); "
+                       "auto u = %s(c.data(), c.size()); bool tw = v%s.TryToWrite(static_cast<%s>(%s)); "
+                       "::std::string s = ::emboss::WriteToString(v%s); bool ok = ::emboss::UpdateFromText(u%s, s); "
+                       'std::printf("RT %d %d %%d %%d %%d ", (int)tw, (int)ok, (int)(b == c)); '
+                       'for (unsigned char ch : s) std::printf("%%02x", (unsigned)ch); std::printf("\\n"); }\n'
+                       % (h["n"], h["n"], h["make"], h["make"], h["access"], E, cpp_lit(v), h["access"], h["access"],
+                          h["id"], i))
         out.append("  }\n")
     out.append('  std::printf("DONE\\n");\n  return 0;\n}\n')
     return "".join(out)
@@ -741,7 +793,14 @@ def prepare_case(chk, r, label, files, main, side=None):
             ws = sorted(v for v in ws if lo <= v <= hi_)
             raws = sorted(raws)
             access = h.get("access") or (".f()" if h["kind"] == "bytes" else ".b().f()")
-            hq = {"id": hi, "make": "::" + "::".join(ns + ["Make%sView" % h["holder"]]), "access": access,
+            # text format: the decimal number of in- and out-of-range values around every boundary of the
+            # field, of the type and of the 64-bit decoders, `-number`, and every declared name
+            tv = set(ws) | {wl - 1, wh + 1, lo - 1, hi_ + 1, -1, (1 << 63) - 1, 1 << 63, (1 << 63) + 1, (1 << 64) - 1,
+                            1 << 64, -(1 << 63), -(1 << 63) - 1, -(1 << 63) + 1}
+            texts = [("num", v, str(v)) for v in sorted(tv)] + [("name", v, n) for n, v in spec.declared]
+            rts = [v for v in ws if spec_field_could_write(sg, w, v)]
+            hq = {"texts": texts, "roundtrips": rts,
+                  "id": hi, "make": "::" + "::".join(ns + ["Make%sView" % h["holder"]]), "access": access,
                   "n": h.get("total", h["container"] // 8), "reads": [list(field_bytes(h, x)) for x in raws], "raws": raws,
                   "writes": ws, "ecpp": c.enums_q[h["enum"]]["cpp"], "h": h, "signed": sg, "W": W}
             c.holders_q.append(hq)
@@ -752,6 +811,10 @@ def prepare_case(chk, r, label, files, main, side=None):
             for v in ws:
                 c.ops.append("FIELD %s %d %d %d W %d" % ("s" if sg else "u", W, B, w, v))
                 c.op_kinds.append(("wr", hi, v))
+            for ti, (kind, v, tok) in enumerate(texts):
+                # a name token: TryToGetEnumFromName (checked above) then TryToWrite = the W op
+                c.ops.append("FIELD %s %d %d %d %s %d" % ("s" if sg else "u", W, B, w, "T" if kind == "num" else "W", v))
+                c.op_kinds.append(("tx", hi, ti))
     if c.status == "ok":
         c.driver = build_driver(main, ns, c.enums_q, c.holders_q)
     return c
@@ -801,8 +864,14 @@ def evaluate_case(chk, c, answers, binary_result, run_result):
         viol("input", "compiler raised an exception", "header or located errors", repr(exc), key=key)
         return
     if exp is not None and exp != real_ok:
+        key = None
+        if exp and c.status == "back-reject" and "would both be named" in json.dumps(c.build.get("errors")) and \
+                c.defs is not None and any(spec_key(c, i, "x") == BACKEND_KEY for i in range(len(c.defs))):
+            # open finding BACKEND_KEY seen through the distinct-names check: another back end's
+            # `enum_case` made the C++ spellings collide (the (cpp) attributes alone do not)
+            key = BACKEND_KEY
         viol("input", "accept/reject differs from the documented rules", "accept" if exp else "reject",
-             {"status": c.status, "errors": c.build.get("errors")})
+             {"status": c.status, "errors": c.build.get("errors")}, key=key)
         return
     if c.defs is None:
         chk.extra["rejected_before_model"] = chk.extra.get("rejected_before_model", 0) + 1
@@ -832,7 +901,7 @@ def evaluate_case(chk, c, answers, binary_result, run_result):
                 return
             j = json.loads(a)
             mj.append(j)
-            if not j["front"] or j.get("gen", 0) is None:
+            if not j["front"] or j.get("gen", 0) is None or not j.get("back", True):
                 model_accept = False
         if c.side is not None and c.side["invalid"] == "field-too-wide":
             model_accept = False
@@ -916,7 +985,7 @@ def evaluate_case(chk, c, answers, binary_result, run_result):
     obs = {}
     for ln in run_result.out.split("\n"):
         p = ln.split(" ")
-        if p[0] in ("TYPE", "EV", "FN", "TN", "RD", "WR"):
+        if p[0] in ("TYPE", "EV", "FN", "TN", "RD", "WR", "TX", "RT"):
             obs.setdefault(p[0], {}).setdefault(int(p[1]), []).append(p[2:])
     for i, d in enumerate(c.defs):
         spec = c.specs[i]
@@ -956,8 +1025,7 @@ def evaluate_case(chk, c, answers, binary_result, run_result):
             if mjj:
                 ii = int(idx)
                 ms = mjj["show"][ii]
-                mshown = (ms[5:].encode().hex() if ms.startswith("name ") else
-                          ms[4:].encode().hex() if ms.startswith("num ") else "%02x" % int(ms[5:]))
+                mshown = ms[5:].encode().hex() if ms.startswith("name ") else ms[4:].encode().hex()
                 if mjj["to_name"][ii] != got_n or mjj["is_known"][ii] != (known == "1") or mshown != shown:
                     viol("correspondence", "TryToGetNameFromEnum/EnumIsKnown/operator<<(%d): model vs compiled header" % v,
                          [mjj["to_name"][ii], mjj["is_known"][ii], ms], [got_n, known, shown], found=False)
@@ -984,7 +1052,7 @@ def evaluate_case(chk, c, answers, binary_result, run_result):
         h, sg, W = hq["h"], hq["signed"], hq["W"]
         w = h["w"]
         B = spec_type_bits(h["container"])
-        narrow = sg and (w < W or w < B)
+        narrow = sg and w < W         # (since fix f572d62 a wider container alone is fine)
         for (idx, ok, val), raw in zip(obs.get("RD", {}).get(hq["id"], []), hq["raws"]):
             want = spec_field_read(sg, w, raw)
             got = int(val)
@@ -1014,6 +1082,43 @@ def evaluate_case(chk, c, answers, binary_result, run_result):
                 if m != real or cw != tw:
                     viol("correspondence", "EnumView::CouldWriteValue/TryToWrite: model vs compiled header", m, real,
                          found=False, extra={"holder": h, "value": v})
+            chk.count()
+        tmap = {(k[1], k[2]): a for k, a, _ in ans.get("tx", [])} if answers else {}
+        for (idx, ok, hexb, rb), (ti, (kind, v, tok)) in zip(obs.get("TX", {}).get(hq["id"], []), enumerate(hq["texts"])):
+            stored, rest = bytes_to_field(h, hexb)
+            in_range = spec_field_could_write(sg, w, v)
+            # the property speaks for in-range values ("enum fields accept any in-range value, named or
+            # not"): the text must be accepted and the field must then hold the value
+            if in_range and not (ok == "1" and rest == 0 and stored == v % (1 << w) and int(rb) == v):
+                viol("input", "enum field UpdateFromText(\"%s\"): %d-bit field of %s enum (underlying %d bits), "
+                     "in-range value %d" % (tok, w, "signed" if sg else "unsigned", W, v),
+                     {"accepted": True, "stored_bits": v % (1 << w), "read_back": v},
+                     {"accepted": ok, "buffer": hexb, "read_back": rb},
+                     key=F14_KEY if (narrow and v < 0) else None, extra={"holder": h, "text": tok})
+            if ok == "0" and (stored != 0 or rest != 0):
+                viol("input", "enum field UpdateFromText(\"%s\") failed but changed the buffer" % tok, "untouched", hexb,
+                     extra={"holder": h, "text": tok})
+            if answers:
+                m = tmap.get((hq["id"], ti))
+                real = ("ok %d" % stored) if ok == "1" else "no"
+                if m != real:
+                    viol("correspondence", "ReadEnumViewFromTextStream (%s token): model vs compiled header" % kind, m, real,
+                         found=False, extra={"holder": h, "text": tok})
+            chk.count()
+            if kind == "num" and abs(v) >= (1 << 63) - 1:
+                chk.extra["text_numbers_at_64bit_boundary"] = chk.extra.get("text_numbers_at_64bit_boundary", 0) + 1
+        for (idx, tw, ok, same, shex), v in zip(obs.get("RT", {}).get(hq["id"], []), hq["roundtrips"]):
+            spec = c.specs[h["enum"]]
+            nm = spec.to_name(v)
+            want_text = nm if nm is not None else str(v)
+            got_text = bytes.fromhex(shex).decode(errors="replace")
+            f14 = narrow and (v < 0 or v >= (1 << (w - 1)))
+            if not (tw == "1" and ok == "1" and same == "1" and got_text == want_text):
+                viol("input", "enum field text round trip of in-range value %d: %d-bit field of %s enum (underlying %d bits)"
+                     % (v, w, "signed" if sg else "unsigned", W),
+                     {"written": True, "text": want_text, "read_back_ok": True, "same_bytes": True},
+                     {"written": tw, "text": got_text, "read_back_ok": ok, "same_bytes": same},
+                     key=F14_KEY if f14 else None, extra={"holder": h})
             chk.count()
         chk.nontrivial("field:%s:W=%d:w=%d:B=%d:%s" % ("s" if sg else "u", W, w, B, h["kind"]))
         chk.extra["fields_checked"] = chk.extra.get("fields_checked", 0) + 1
@@ -1076,11 +1181,25 @@ def header_lists_vs_spec(p, spec):
 
 # ================================================================== corpora
 PINNED = {
+    # open finding F14
     "f14": ("enum Sgn:\n  [maximum_bits: 8]\n  [is_signed: true]\n  NEG = -1\n  POS = 1\n\n"
             "bits Bh:\n  0 [+8] UInt all\n  0 [+4] Sgn f\n\nstruct Hh:\n  0 [+1] Bh b\n",
-            {"holders": [{"enum": 0, "holder": "Hh", "kind": "bits", "w": 4, "container": 8, "offset": 0, "bo": "Little"}]}),
-    "ostream8": ("enum Small:\n  [maximum_bits: 8]\n  AB = 1\n", {"holders": []}),
-    "camel": ('enum Foo:\n  [(cpp) $default enum_case: "kCamelCase"]\n  A_1B = 1\n  A1B = 2\n', {"holders": []}),
+            {"holders": [{"enum": 0, "holder": "Hh", "kind": "bits", "w": 4, "container": 8, "offset": 0, "bo": "Little",
+                          "access": ".b().f()"}]}),
+    # fixed by f572d62 (needs holder data, so it lives here and not in corpus/C19): a full-width field of a
+    # signed enum inside a wider `bits`
+    "f572d62": ('[$default byte_order: "LittleEndian"]\n' "enum Sgn:\n  [maximum_bits: 8]\n  [is_signed: true]\n  NEG = -1\n  POS = 1\n  LOW = -128\n\n"
+                "bits Bh:\n  0 [+16] UInt all\n  4 [+8] Sgn f\n\nstruct Hh:\n  0 [+2] Bh b\n",
+                {"holders": [{"enum": 0, "holder": "Hh", "kind": "bits", "w": 8, "container": 16, "offset": 4,
+                              "bo": "Little", "access": ".b().f()"}]}),
+    # 64-bit boundaries through every path (values, names, text numbers)
+    "u64-field": ('[$default byte_order: "LittleEndian"]\n' "enum Big:\n  TOP = 0xffff_ffff_ffff_ffff\n  MID = 0x8000_0000_0000_0000\n  ONE = 1\n\n"
+                  "enum Neg:\n  LOW = -0x8000_0000_0000_0000\n  HIGH = 0x7fff_ffff_ffff_ffff\n\n"
+                  "struct Hh:\n  0 [+8] Big f\n  8 [+8] Neg g\n",
+                  {"holders": [{"enum": 0, "holder": "Hh", "kind": "bytes", "w": 64, "container": 64, "offset": 0,
+                                "bo": "Little", "base": 0, "total": 16, "access": ".f()"},
+                               {"enum": 1, "holder": "Hh", "kind": "bytes", "w": 64, "container": 64, "offset": 0,
+                                "bo": "Little", "base": 8, "total": 16, "access": ".g()"}]}),
     "other-backend": ('[expected_back_ends: "cpp, rust"]\n[(rust) $default enum_case: "kCamelCase"]\n'
                       "enum Foo:\n  AB_CD = 1\n", {"holders": []}),
 }
@@ -1343,8 +1462,9 @@ def _run(tier):
     # pinned inputs of open findings + fixed findings in reach
     for nm, (txt, extra) in PINNED.items():
         cases.append(("pinned:" + nm, {"m.emb": txt}, "m.emb", ("pinned", extra)))
-    n_valid, n_invalid = (6, 12) if quick else (200, 120)
-    inv_kinds = ["maxbits", "value-range", "mixed-sign-64", "bad-case", "field-too-wide", "other-backend"]
+    n_valid, n_invalid = (6, 14) if quick else (200, 140)
+    inv_kinds = ["maxbits", "value-range", "mixed-sign-64", "bad-case", "field-too-wide", "other-backend",
+                 "camel-collision"]
     dist = {}
     for i in range(n_valid):
         t, side = gen_module(r, bad)
